@@ -613,6 +613,8 @@ struct World<'w> {
     dead: bool,
     /// write `ST ~` instead of a dump for ops whose index is not a multiple of this
     st_every: usize,
+    /// `prev` is older than the last operation (its dump was omitted)
+    stale: bool,
     nops: u64,
 }
 
@@ -635,6 +637,7 @@ impl<'w> World<'w> {
             a: None,
             b: None,
             st_every: 1,
+            stale: false,
             nops: 0,
             cfg,
         };
@@ -702,6 +705,8 @@ impl<'w> World<'w> {
         self.nops += 1;
         let i = self.opi;
         let tag = if op.is_query() { "Q" } else { "OP" };
+        // a query is only followed by a dump if it changed the buffers
+        let qbase = if op.is_query() && self.stale { Some(dump(&self.cfg, self.a.as_ref().unwrap())) } else { None };
         let trees_before: Vec<u32> = {
             let a = self.a.as_ref().unwrap();
             (0..self.ntrees()).map(|t| a.tree_word(t)).collect()
@@ -774,6 +779,7 @@ impl<'w> World<'w> {
         let omit = self.st_every > 1 && !i.is_multiple_of(self.st_every) && outc != Out::Panic && !op.is_query();
         if omit {
             writeln!(self.w, "ST ~").unwrap();
+            self.stale = true;
             // the twin is still compared
             if let Some(b) = &self.b {
                 let (da, db) = (dump(&self.cfg, a), dump(&self.cfg, b));
@@ -798,13 +804,20 @@ impl<'w> World<'w> {
                     }
                 }
             }
-            if d == self.prev {
-                if !op.is_query() {
-                    writeln!(self.w, "ST =").unwrap();
+            if op.is_query() {
+                if d != *qbase.as_ref().unwrap_or(&self.prev) {
+                    writeln!(self.w, "ST {d}").unwrap();
+                    self.prev = d;
+                    self.stale = false;
                 }
             } else {
-                writeln!(self.w, "ST {d}").unwrap();
-                self.prev = d;
+                if d == self.prev {
+                    writeln!(self.w, "ST =").unwrap();
+                } else {
+                    writeln!(self.w, "ST {d}").unwrap();
+                    self.prev = d;
+                }
+                self.stale = false;
             }
         }
         // beliefs
@@ -1040,7 +1053,7 @@ impl World<'_> {
             }
             6..=8 => {
                 // offline by match: an entirely free tree of some class
-                let mfree = if rng.chance(3, 4) { TREE_FRAMES } else { rng.range(0, TREE_FRAMES + 1) };
+                let mfree = if rng.chance(7, 8) { TREE_FRAMES } else { rng.range(0, TREE_FRAMES + 1) };
                 Op::Change { id: None, mclass: anyclass(rng, self), mfree, nclass: None, op: Some(false) }
             }
             9 => {
